@@ -70,6 +70,7 @@ def thread_paths(repo, prefix, fq=None):
     """All action sequences of one call of the constructor (or of another method ``fq``) by thread  <prefix>_tid."""
     fq = fq or INIT
     abstracted_lines = set()
+    inlined_lines = set()
     out = []
 
     def body(ctx):
@@ -106,6 +107,8 @@ def thread_paths(repo, prefix, fq=None):
 
         def stmt_hook(I_, st, fr):
             if fr.func is not fi:
+                if fr.module is fi.module:
+                    I_.hooks['cur_line'] = st.lineno      # a helper of the same module executed for real: its own line
                 return False
             I_.hooks['cur_line'] = st.lineno
             if mentions(st):
@@ -123,9 +126,13 @@ def thread_paths(repo, prefix, fq=None):
             if isinstance(st, (ast.Return, ast.Pass, ast.Global, ast.Nonlocal, ast.Raise, ast.Break, ast.Continue)):
                 return False
             # local step: abstracted to 'continue or raise'
-            abstracted_lines.add(st.lineno)
             if _calls_method_touching_shared(st, cls):
-                raise Unsupported(f'line {st.lineno}: calls a method that touches {SHARED}')
+                # a helper that reads / writes the ownership attribute is not a local step: it is executed for real, so that its
+                # loads and stores (and its lock regions) become atomic actions of this constructor call, attributed to the
+                # calling line; whatever else the helper does must be within the engine's reach, else the unit is undecided
+                inlined_lines.add(st.lineno)
+                return False
+            abstracted_lines.add(st.lineno)
             if ctx.choose(2, lambda i: True) == 1:
                 I_.raise_('Exception', f'local step at line {st.lineno} fails')
             return True
@@ -541,7 +548,7 @@ def replay_schedule(payload):
                         cond.notify_all()
 
         def local(frame, event, arg):
-            if frame.f_code is not init_code:
+            if frame.f_code is not init_code and frame.f_code.co_filename != init_code.co_filename:
                 return local
             if event == 'line':
                 if prog['in_group'] is not None and prog['in_group'][1]:
@@ -575,7 +582,8 @@ def replay_schedule(payload):
             return local
 
         def tracer(frame, event, arg):
-            if frame.f_code is init_code:
+            # the constructor and the helpers of its module that it calls (their lines can carry atomic actions too)
+            if frame.f_code is init_code or frame.f_code.co_filename == init_code.co_filename:
                 return local(frame, event, arg) or local
             return None
         return tracer
